@@ -192,6 +192,12 @@ func (d *DBFT[H]) sendRecoveryRequest() {
 	// transactions or both, so re-request missing transactions here too.
 	if d.RequestSentOrReceived() && !d.hasAllTransactions() {
 		d.processMissingTx()
+		if d.hasAllTransactions() {
+			// The pool has just completed the set of transactions. Proceed the
+			// same way as if the last of them was supplied via OnTransaction:
+			// verify the block and answer the proposal.
+			d.addTransaction(d.Transactions[d.TransactionHashes[0]])
+		}
 	}
 	req := d.NewRecoveryRequest(uint64(d.Timer.Now().UnixNano()))
 	d.broadcast(d.NewConsensusPayload(&d.Context, RecoveryRequestType, req))
